@@ -10,7 +10,9 @@
   Shape of every family theorem (all widths, all operands, all shared-arithmetic values):
      value : runT p core = .val r → runQ p core = .val r
      throws: runT p core = .thrown k ↔ err inputs ∧ k = kind inputs
-  (cfloat `+= -= *=`: the model follows the code after fix 896b71f, which repaired D22; the value clause is a full theorem.)
+  (cfloat `+= -= *=`: the model follows the code after fix d2b4539, which repaired D22; the value clause is a full theorem.)
+  (lns `/=`: the model follows the code after the fix "lns operator/= must test for a zero divisor before the NaN operands";
+   `C19_lns_throws` is a full theorem.)
   Where the pinned code violates one of the two, the theorem carries the excluded operand class as a decidable hypothesis
   (`…_partial`) and the negation is proved at a concrete witness (`…_counterexample`).
 -/
@@ -99,14 +101,15 @@ example : PositSpec.err 16 .div 0x4000 0 = true ∧ PositSpec.kind 16 .div 0x400
 
 Configuration `c = (nbits, es, subnormals, supernormals)` with at least one fraction bit; encodings canonical. -/
 
-/-- prologue level (code after fix 896b71f: the quiet-NaN test of `+= -= *=` follows the `#endif`): no throw ⇒ the two
-    builds take the same early exit — in particular both return quiet NaN for a quiet-NaN operand. -/
+/-- prologue level (code after fix d2b4539: the quiet-NaN test of `+= -= *=` follows the `#endif`; `/=`: the throwing build
+    returns the quiet NaN for a quiet-NaN numerator): no throw ⇒ the two builds take the same early exit — in particular both
+    return quiet NaN for a quiet-NaN operand. -/
 theorem C19_cfloat_prologues_agree (c : Cfg) (op : Op) (a b : Nat)
     (hf : c.es + 2 ≤ c.n) (ha : a < 2 ^ c.n) (hb : b < 2 ^ c.n) :
     (CFloat.prologue c op a b).throws = none →
       (CFloat.prologue c op a b).qEarly = (CFloat.prologue c op a b).tEarly ∧ (CFloat.prologue c op a b).qTrap = false := by
   rw [cfloat_prologue_spec c op a b hf ha hb]
-  rw [cfloatSpec_nan_split c a, cfloatSpec_nan_split c b]
+  rw [cfloatSpec_nan_split c b]
   generalize CFloatSpec.isSNaN c a = sa at *
   generalize CFloatSpec.isSNaN c b = sb at *
   generalize CFloatSpec.isQNaN c a = qa at *
@@ -123,15 +126,18 @@ theorem C19_cfloat_value (c : Cfg) (op : Op) (a b core r : Nat)
     runT (CFloat.prologue c op a b) core = .val r → runQ (CFloat.prologue c op a b) core = .val r :=
   run_value_agree _ (C19_cfloat_prologues_agree c op a b hf ha hb) core r
 
-/-- throw clause outside the class "quiet-NaN numerator over an ordinary divisor". -/
-theorem C19_cfloat_throws_partial (c : Cfg) (op : Op) (a b : Nat) (k : ExcKind)
-    (hf : c.es + 2 ≤ c.n) (ha : a < 2 ^ c.n) (hb : b < 2 ^ c.n)
-    (hx : CFloatSpec.divQNaNNumeratorClass c op a b = false) :
-    (CFloat.prologue c op a b).throws = some k ↔ (CFloatSpec.err c op a b = true ∧ k = CFloatSpec.kind c op a b) := by
+/-- full statement of the throw clause: the throwing build throws exactly for the documented operands, with the documented type -/
+def C19_cfloat_throws_full : Prop :=
+  ∀ (c : Cfg) (op : Op) (a b : Nat) (k : ExcKind), c.es + 2 ≤ c.n → a < 2 ^ c.n → b < 2 ^ c.n →
+    ((CFloat.prologue c op a b).throws = some k ↔ (CFloatSpec.err c op a b = true ∧ k = CFloatSpec.kind c op a b))
+
+/-- **throw clause, every operator and operand pair** (since the repair "operator/= in the throwing build must propagate a
+    quiet NaN numerator instead of throwing" the former exception, a quiet-NaN numerator over an ordinary divisor, is gone). -/
+theorem C19_cfloat_throws : C19_cfloat_throws_full := by
+  intro c op a b k hf ha hb
   rw [cfloat_prologue_spec c op a b hf ha hb]
-  unfold CFloatSpec.divQNaNNumeratorClass at hx
   unfold CFloatSpec.err CFloatSpec.kind
-  rw [cfloatSpec_nan_split c a, cfloatSpec_nan_split c b] at *
+  rw [cfloatSpec_nan_split c b] at *
   generalize CFloatSpec.isSNaN c a = sa at *
   generalize CFloatSpec.isSNaN c b = sb at *
   generalize CFloatSpec.isQNaN c a = qa at *
@@ -139,34 +145,27 @@ theorem C19_cfloat_throws_partial (c : Cfg) (op : Op) (a b : Nat) (k : ExcKind)
   generalize CFloatSpec.isZero c a = za at *
   generalize CFloatSpec.isZero c b = zb at *
   cases op <;> simp only [] <;>
-    cases sa <;> cases sb <;> cases qa <;> cases qb <;> cases zb <;> simp at hx ⊢ <;> exact eq_comm
+    cases sa <;> cases sb <;> cases qa <;> cases qb <;> cases zb <;> simp <;> exact eq_comm
 
-theorem C19_cfloat (c : Cfg) (op : Op) (a b core : Nat) (hf : c.es + 2 ≤ c.n) (ha : a < 2 ^ c.n) (hb : b < 2 ^ c.n)
-    (hx2 : CFloatSpec.divQNaNNumeratorClass c op a b = false) :
+theorem C19_cfloat (c : Cfg) (op : Op) (a b core : Nat) (hf : c.es + 2 ≤ c.n) (ha : a < 2 ^ c.n) (hb : b < 2 ^ c.n) :
     (∀ r, runT (CFloat.prologue c op a b) core = .val r → runQ (CFloat.prologue c op a b) core = .val r) ∧
     (∀ k, runT (CFloat.prologue c op a b) core = .thrown k ↔ (CFloatSpec.err c op a b = true ∧ k = CFloatSpec.kind c op a b)) :=
   ⟨fun r => C19_cfloat_value c op a b core r hf ha hb,
-   fun k => (runT_thrown_iff _ core k).trans (C19_cfloat_throws_partial c op a b k hf ha hb hx2)⟩
+   fun k => (runT_thrown_iff _ core k).trans (C19_cfloat_throws c op a b k hf ha hb)⟩
 
-/-- cfloat: outside the operand class "quiet-NaN numerator over an ordinary divisor" the spec predicate accepts the outcome pair of the two builds. -/
-theorem C19_cfloat_spec_accepts (c : Cfg) (op : Op) (a b core : Nat) (hf : c.es + 2 ≤ c.n) (ha : a < 2 ^ c.n) (hb : b < 2 ^ c.n)
-    (hx2 : CFloatSpec.divQNaNNumeratorClass c op a b = false) :
+/-- cfloat: the spec predicate accepts the outcome pair of the two builds for every operator and operand pair. -/
+theorem C19_cfloat_spec_accepts (c : Cfg) (op : Op) (a b core : Nat) (hf : c.es + 2 ≤ c.n) (ha : a < 2 ^ c.n) (hb : b < 2 ^ c.n) :
     specHolds (CFloatSpec.err c op a b) (CFloatSpec.kindApplies c op a b) false
       ((runQ (CFloat.prologue c op a b) core).obs toHex) ((runT (CFloat.prologue c op a b) core).obs toHex)
       (CFloat.prologue c op a b).qStderr = true :=
   specHolds_of_model toHex _ core _ _ false (CFloatSpec.kind c op a b) (C19_cfloat_prologues_agree c op a b hf ha hb)
-    (fun k => C19_cfloat_throws_partial c op a b k hf ha hb hx2) (cfloatSpec_kind_applies c op a b) (by simp)
+    (fun k => C19_cfloat_throws c op a b k hf ha hb) (cfloatSpec_kind_applies c op a b) (by simp)
 
-def C19_cfloat_throws_full : Prop :=
-  ∀ (c : Cfg) (op : Op) (a b : Nat) (k : ExcKind), c.es + 2 ≤ c.n → a < 2 ^ c.n → b < 2 ^ c.n →
-    ((CFloat.prologue c op a b).throws = some k ↔ (CFloatSpec.err c op a b = true ∧ k = CFloatSpec.kind c op a b))
-
-/-- `cfloat<8,2,uint8_t,true,true,false>`: qNaN / (the encoding 0x01) throws `cfloat_operand_is_nan`, although no operand is a
-    signalling NaN and the divisor is neither zero nor NaN. -/
-theorem C19_cfloat_div_qnan_numerator_counterexample : ¬ C19_cfloat_throws_full := by
-  intro h
-  have := (h ⟨8, 2, true, true⟩ .div 0x7f 0x01 .cfloat_operand_is_nan (by decide) (by decide) (by decide)).1 (by decide)
-  exact absurd this.1 (by decide)
+/-- the former witness `cfloat<8,2,uint8_t,true,true,false>`: qNaN / (the encoding 0x01) no longer throws; both builds return
+    the quiet NaN -/
+example : runT (CFloat.prologue ⟨8, 2, true, true⟩ .div 0x7f 0x01) 0 = .val 0x7f ∧
+    runQ (CFloat.prologue ⟨8, 2, true, true⟩ .div 0x7f 0x01) 0 = .val 0x7f ∧
+    runT (CFloat.prologue ⟨8, 2, true, true⟩ .div 0xff 0x01) 0 = .thrown .cfloat_operand_is_nan := by decide
 
 -- non-vacuity: half precision, 1.0 + qNaN is qNaN in both builds (the D22 operands); sNaN + 1.0 throws; 1.0 / -0 throws divide_by_zero; an ordinary pair falls through
 example : runT (CFloat.prologue ⟨16, 5, true, false⟩ .add 0x3c00 0x7fff) 0x3c00 = .val 0x7fff ∧
@@ -298,17 +297,10 @@ theorem C19_lns_value (n : Nat) (op : Op) (a b core r : Nat) :
   unfold Lns.prologue
   cases op <;> simp only [] <;> cases Lns.isNaN n a <;> cases Lns.isNaN n b <;> cases Lns.isZero n b <;> simp
 
-/-- throw clause outside the operand class "NaN / 0". -/
-theorem C19_lns_throws_partial (n : Nat) (op : Op) (a b : Nat) (k : ExcKind)
-    (hx : ¬ (op = .div ∧ LnsSpec.isNaN n a = true ∧ LnsSpec.isZero n b = true)) :
+/-- throw clause, every width, operator and operand pair (code after the fix "lns operator/= must test for a zero divisor
+    before the NaN operands"): the throwing build throws `lns_divide_by_zero` exactly for a zero divisor — NaN / 0 included. -/
+theorem C19_lns_throws (n : Nat) (op : Op) (a b : Nat) (k : ExcKind) :
     (Lns.prologue n op a b).throws = some k ↔ (LnsSpec.err n op a b = true ∧ k = .lns_divide_by_zero) := by
-  have hzn : LnsSpec.isZero n b = true → LnsSpec.isNaN n b = false := by
-    unfold LnsSpec.isZero LnsSpec.isNaN
-    have hp : 0 < 2 ^ (n - 1) := Nat.two_pow_pos _
-    intro h
-    have h1 : b = 2 ^ (n - 2) := by simpa using h
-    simp only [beq_eq_false_iff_ne]
-    omega
   have e1 : Lns.isNaN n a = LnsSpec.isNaN n a := rfl
   have e2 : Lns.isNaN n b = LnsSpec.isNaN n b := rfl
   have e3 : Lns.isZero n b = LnsSpec.isZero n b := rfl
@@ -317,24 +309,20 @@ theorem C19_lns_throws_partial (n : Nat) (op : Op) (a b : Nat) (k : ExcKind)
   generalize LnsSpec.isNaN n a = na at *
   generalize LnsSpec.isNaN n b = nb at *
   generalize LnsSpec.isZero n b = zb at *
-  cases op <;> simp only [] <;> cases na <;> cases nb <;> cases zb <;> simp at hx hzn ⊢ <;> exact eq_comm
+  cases op <;> simp only [] <;> cases na <;> cases nb <;> cases zb <;> simp <;> exact eq_comm
 
-def C19_lns_throws_full : Prop :=
-  ∀ (n : Nat) (op : Op) (a b : Nat) (k : ExcKind),
-    ((Lns.prologue n op a b).throws = some k ↔ (LnsSpec.err n op a b = true ∧ k = .lns_divide_by_zero))
+/-- the former witness class: NaN / 0 throws `lns_divide_by_zero` in the throwing build and is NaN in the quiet build, for
+    every width (`exc lns 8 3 u8 div c0 40` is n = 8). -/
+theorem C19_lns_nan_by_zero_throws (n : Nat) (core : Nat) :
+    runT (Lns.prologue n .div (Lns.nan n) (2 ^ (n - 2))) core = .thrown .lns_divide_by_zero ∧
+    runQ (Lns.prologue n .div (Lns.nan n) (2 ^ (n - 2))) core = .val (Lns.nan n) := by
+  simp [runT, runQ, Lns.prologue, Lns.isZero]
 
-/-- `lns<8,3>`: NaN / 0 is a division by zero, the throwing build returns NaN without throwing. -/
-theorem C19_lns_nan_by_zero_counterexample : ¬ C19_lns_throws_full := by
-  intro h
-  have := (h 8 .div 0xc0 0x40 .lns_divide_by_zero).2 (by decide)
-  exact absurd this (by decide)
-
-theorem C19_lns (n : Nat) (op : Op) (a b core : Nat)
-    (hx : ¬ (op = .div ∧ LnsSpec.isNaN n a = true ∧ LnsSpec.isZero n b = true)) :
+theorem C19_lns (n : Nat) (op : Op) (a b core : Nat) :
     (∀ r, runT (Lns.prologue n op a b) core = .val r → runQ (Lns.prologue n op a b) core = .val r) ∧
     (∀ k, runT (Lns.prologue n op a b) core = .thrown k ↔ (LnsSpec.err n op a b = true ∧ k = .lns_divide_by_zero)) :=
   ⟨fun r => C19_lns_value n op a b core r,
-   fun k => (runT_thrown_iff _ core k).trans (C19_lns_throws_partial n op a b k hx)⟩
+   fun k => (runT_thrown_iff _ core k).trans (C19_lns_throws n op a b k)⟩
 
 theorem C19_lns_prologues_agree (n : Nat) (op : Op) (a b : Nat) :
     (Lns.prologue n op a b).throws = none →
@@ -342,17 +330,18 @@ theorem C19_lns_prologues_agree (n : Nat) (op : Op) (a b : Nat) :
   unfold Lns.prologue
   cases op <;> simp only [] <;> cases Lns.isNaN n a <;> cases Lns.isNaN n b <;> cases Lns.isZero n b <;> simp
 
-theorem C19_lns_spec_accepts (n : Nat) (op : Op) (a b core : Nat)
-    (hx : ¬ (op = .div ∧ LnsSpec.isNaN n a = true ∧ LnsSpec.isZero n b = true)) :
+/-- lns: the spec predicate accepts the outcome pair of the two builds for every width, operator, operand pair. -/
+theorem C19_lns_spec_accepts (n : Nat) (op : Op) (a b core : Nat) :
     specHolds (LnsSpec.err n op a b) (LnsSpec.kindApplies n op a b) false
       ((runQ (Lns.prologue n op a b) core).obs toHex) ((runT (Lns.prologue n op a b) core).obs toHex)
       (Lns.prologue n op a b).qStderr = true := by
   apply specHolds_of_model toHex _ core _ _ false .lns_divide_by_zero (C19_lns_prologues_agree n op a b)
-    (fun k => C19_lns_throws_partial n op a b k hx)
+    (fun k => C19_lns_throws n op a b k)
   · intro h; simp [LnsSpec.kindApplies, h]
   · simp
 
 example : runT (Lns.prologue 16 .div 0x0100 0x4000) 0 = .thrown .lns_divide_by_zero ∧ runQ (Lns.prologue 16 .div 0x0100 0x4000) 0 = .val 0xc000 := by decide
+example : runT (Lns.prologue 8 .div 0xc0 0x40) 0 = .thrown .lns_divide_by_zero ∧ runQ (Lns.prologue 8 .div 0xc0 0x40) 0 = .val 0xc0 := by decide
 
 /-! ### elastic types — division by zero -/
 
@@ -393,7 +382,7 @@ theorem C19_elastic_throws (op : Op) (a b : Int) (k : ExcKind) :
     · have hb' : (b == 0) = false := by simpa using hb
       cases op <;> simp [hb']
 
-/-- einteger, edecimal and erational (code after fix 08c03f8): the quiet build's message on std::cerr appears for exactly
+/-- einteger, edecimal and erational (code after fix 0df1c14): the quiet build's message on std::cerr appears for exactly
     the operands the throwing build throws for. -/
 theorem C19_elastic_quiet_signal (op : Op) (a b : Int) :
     (Elastic.eintPrologue op a b).qStderr = ((Elastic.eintPrologue op a b).throws).isSome ∧
